@@ -17,25 +17,38 @@ from harness import c10_util
 from translate import c10_bspgraph
 
 MANIFEST = dict(
-    technique='Rocq proof (lazy-lump state machine: get/save over a dependency graph, invariant by induction over ALL '
-              'access sequences) + ast translator of the ParsedLump/rebuild-order/reader/writer dependency graph + '
-              'vm_compute correspondence on traced runs + round-trip oracle on real and synthesised BSPs',
-    text='Theorems in Props/C10.v, for every dependency graph g with order_consistent g = true and every sequence of '
-         'view accesses: looking never changes what a view denotes (cleared raw data is matched by a cached value), '
-         'looking always terminates, save empties the cache, every view parses to the same content afterwards, lumps '
-         'without a view and lumps of untouched views are byte-identical, a second save is the identity, any number of '
-         'look/save cycles is lossless; each clause of order_consistent is shown necessary by a closed counterexample. '
-         'order_consistent bsp_graph (every reader/writer dependency lies later in LUMP_REBUILD_ORDER, so in particular '
-         'no writer looks at its own view; every cleared lump is stored by its writer; no lump owned twice) is '
-         're-derived from bsp.py by translate/c10_bspgraph.py and kernel-checked on every run. The hand-written get/save '
-         'model is compared with ParsedLump.__get__/BSP.save on traced runs; the whole pipeline (container, LZMA, game '
-         'lumps, codecs) is searched on tests/test_vec/rot_main.bsp and synthesised BSPs of 7 layouts.',
-    note='Assumed in the theorems (visible hypotheses): each lump writer inverts its reader on the file\'s lumps '
-         '(codec_ok, wr_len_ok: property C11). Not modelled, searched only: the file container (header, lump table, '
-         'game-lump directory, LZMA), FACEIDS (read and conditionally stored by the face writers without being owned by '
-         'a view), VitaminSource-only branches, hidden mutation of the ents view by the bmodels reader. Trusted: Coq '
-         'kernel + vm_compute, translate/c10_bspgraph.py (may-analysis; its result must contain every dynamically traced '
-         'dependency), the hand model SM/LazyLumps.v (tied by correspondence), CPython lzma/zipfile.',
+    technique='Rocq proof (lazy-lump state machine with looks that raise: get/save over a dependency graph and a generated '
+              'statement-order/loop shape, invariant by induction over ALL access sequences; file container model with '
+              'read (write c) = c) + ast translator (ParsedLump/rebuild-order/reader/writer dependency graph, event order of '
+              'ParsedLump.__get__ on every path, loop shape of BSP.save, reader-side lump stores, read-only/appending view uses, '
+              'container constants) + vm_compute correspondences (traced get/save runs including raising looks; container model '
+              'vs BSP.read/BSP.save byte-exact in both directions) + round-trip oracle on real, synthesised and malformed BSPs',
+    text='Theorems in Props/C10.v, for every dependency graph g with order_consistent g = true, every __get__/save shape sh with '
+         'shape_ok sh = true and every sequence of view accesses, including accesses whose reader raises and is caught: a look '
+         'succeeds or fails only because some reader rejects the file\'s data (never for lack of fuel); a failed look leaves the '
+         'view uncached, its lumps untouched and every view\'s denotation unchanged (literally the identity for views without '
+         'reader dependencies); looking never changes what a view denotes; if save completes it empties the cache, every view '
+         'parses to the same content (or is rejected as before), lumps without a view and lumps of untouched views are '
+         'byte-identical, a second save is the identity, any number of look/save cycles is lossless; save completes whenever '
+         'writers look only where readers looked (decidable on the graph). Each clause of order_consistent and each flag of the '
+         'shape (raw data cleared before the reader finished = seeded c10_2; save walking a snapshot of the cached views = '
+         'seeded c10_1) is shown harmful by a closed counterexample. Container: read (write c) = Some c for every well-formed '
+         'container and layout with LZMA as an inverse pair (header, 64-row table in standard and L4D2 field order, revision, '
+         'payload placement in write order, game-lump directory with absolute offsets, NUL separators and the dummy entry); '
+         'four wf conditions shown necessary. order_consistent bsp_graph, shape_ok bsp_shape, layout_ok bsp_layout, '
+         'bsp_layout = std_layout and 18 further named obligations are re-derived from bsp.py and kernel-checked on every run.',
+    note='Assumed in the theorems (visible hypotheses): each lump writer inverts its reader on the file\'s lumps (codec_ok, '
+         'wr_len_ok: property C11); decompress (compress d) = d (CPython lzma). The container theorem is about the model '
+         'Fmt/BspContainer.v, tied to BSP.read/BSP.save by byte-exact correspondence on random containers (not by a translator of '
+         'the save body beyond its constants and loop shape); negative int32 fields, files >= 2 GiB, duplicate game-lump ids and '
+         'truncated files are outside wf. Writers that append to a view they look at (find_or_insert) are classified and '
+         'obliged to be read-or-append only; that appends are no-ops on values parsed from the file (every referenced item is '
+         'already in its table: C11 find_or_insert_sound) is assumed, checked end to end by the oracle. Not modelled, searched '
+         'only: FACEIDS (conditionally stored, unowned), VitaminSource-only branches, hidden mutation of the ents view by the '
+         'bmodels reader, zipfile. A save that raises because a writer looks at an unparsable view of a malformed file produces no '
+         'file and is not counted as a violation. Trusted: Coq kernel + vm_compute, translate/c10_bspgraph.py (may-analysis; its '
+         'result must contain every dynamically traced dependency), hand models SM/LazyLumps.v and Fmt/BspContainer.v (tied by '
+         'correspondence), harness/c10_util.py, CPython lzma/zipfile.',
 )
 
 IMPORTS = ['SV.SM.LazyLumps', 'SV.SM.LazyLumpsProofs', 'SV.Fmt.BspContainer', 'SV.Gen.BspGraph_gen', 'Coq.Strings.String', 'Coq.Lists.List', 'Coq.Arith.Arith', 'Coq.Bool.Bool']
@@ -771,10 +784,16 @@ def run(ck: Ck) -> None:
     ck.rule = ('inputs: tests/test_vec/rot_main.bsp and synthesised consistent BSPs (7 layouts x options: LZMA lumps, '
                'compressed / extra game lumps, missing aux lumps, FACEIDS variants, no origin vertex, water, vis); histories: '
                'no access, every single view, every ordered pair on the default file, random subsets and orders, all views '
-               'forwards/backwards, 1-3 look/save cycles; a case is non-trivial when at least one view is looked at; '
-               'distinct by (input, access cycles)')
-    ck.trusted.append('hand-written model SM/LazyLumps.v (tied by traced correspondence on every run); harness/c10_util.py '
-                      '(independent container encoder/decoder, BSP synthesiser)')
+               'forwards/backwards, 1-3 look/save cycles; 8 malformed inputs (unknown static-prop version, stray bytes in the prop '
+               'lump, unterminated entity, texinfo naming a missing texdata, truncated detail props / overlays, also LZMA-compressed) '
+               'whose failing views are looked at inside try/except before saving; random small containers for the container '
+               'model; a case is non-trivial when at least one view is looked at; distinct by (input, access cycles)')
+    ck.trusted.append('hand-written models SM/LazyLumps.v (tied by traced correspondence on every run, including looks that raise) '
+                      'and Fmt/BspContainer.v (tied byte-exactly to BSP.read/BSP.save on random containers on every run); '
+                      'harness/c10_util.py (independent container encoder/decoder, BSP synthesiser); CPython lzma (compress_lzma '
+                      'output enters the container model as a finite table)')
+    ck.assumptions.append('decompress (compress d) = d (hypothesis of c10_container_roundtrip); appends by writers to views they '
+                          'look at are no-ops on values parsed from the file (C11 find_or_insert_sound + table completeness)')
     ck.assumptions.append('codec_ok / wr_len_ok (each writer inverts its reader on the lumps of the file: C11) are hypotheses of '
                           'the theorems; the oracle checks them end to end on the sample inputs only')
     import time
@@ -805,7 +824,7 @@ def run(ck: Ck) -> None:
                                                        f'negb (existsb (fun j => mem 11 (own bsp_graph j)) (seq 0 ({n})))) bsp_cond_stores',
             # statement order of ParsedLump.__get__ and loop shape of BSP.save (hypothesis shape_ok of the theorems)
             'shape_ok_bsp_shape': 'shape_ok bsp_shape',
-            'get_clears_raw_data_only_after_parse_and_cache_store': 'negb (sh_early_main bsp_shape) && negb (sh_early_extra bsp_shape)',
+            'get_clears_raw_data_only_after_the_reader_has_finished': 'negb (sh_early_main bsp_shape) && negb (sh_early_extra bsp_shape)',
             'get_caches_every_parsed_value': 'negb bsp_get_parse_uncached',
             'readers_never_store_lump_data': 'match bsp_reader_stores with nil => true | _ => false end',
             'save_pops_views_during_the_walk_of_the_rebuild_order': 'negb (sh_snapshot bsp_shape)',
@@ -990,7 +1009,7 @@ def run(ck: Ck) -> None:
     kinds = {f['kind'].split(':')[0] for f in found.values()}
     if kinds & {'view-content-changed', 'cache-not-empty-after-save', 'raw-changed', 'save-raises', 'look-raises',
                 'failed-look-changed-lump', 'raw-changed-unparsable'}:
-        for nm in ('shape_ok_bsp_shape', 'get_clears_raw_data_only_after_parse_and_cache_store', 'get_caches_every_parsed_value',
+        for nm in ('shape_ok_bsp_shape', 'get_clears_raw_data_only_after_the_reader_has_finished', 'get_caches_every_parsed_value',
                    'readers_never_store_lump_data',
                    'save_pops_views_during_the_walk_of_the_rebuild_order', 'writers_look_only_at_views_their_readers_look_at',
                    'readers_only_read_the_views_they_look_at', 'writers_only_read_or_append_to_the_views_they_look_at',
